@@ -36,7 +36,22 @@ def rand_bytes(rng, n):
     return rng.randbytes(n)
 
 
+NONASCII_PAIRS = [("隧道-华东节点-01", "隧道-华东节点-02"), ("tunnel-zürich-é1", "tunnel-zürich-é2"), ("😀😀😀😀a😀1", "😀😀😀😀a😀2"),
+                  ("Ünïcödé-tünnél-A", "Ünïcödé-tünnél-B"), ("туннель-москва-1", "туннель-москва-2")]
+
+
+def rand_nonascii_id(rng):
+    """ids with 2-, 3- and 4-byte runes: at most 16 runes but more than 16 bytes"""
+    alpha = ["é", "ü", "ж", "隧", "道", "节", "😀", "a", "-", "7"]
+    while True:
+        s = "".join(rng.choice(alpha) for _ in range(rng.randrange(6, 17)))
+        if len(s.encode()) > 16:
+            return s
+
+
 def rand_id_string(rng):
+    if rng.random() < 0.12:
+        return rand_nonascii_id(rng)
     k = rng.random()
     if k < 0.35:
         return "%s-tunnel-%d-%d" % (rng.choice(["tcp", "udp", "socks5", "http"]),
@@ -122,6 +137,9 @@ def gen_stream(rng, n, collide_every=0):
                 writers.append(s)
         if collide_every and i % collide_every == collide_every - 1 and len(mine) > 16:
             writers.append(mine[:16] + "-other-tunnel")
+        if collide_every and i % collide_every == collide_every // 2:
+            mine, other = rng.choice(NONASCII_PAIRS)     # two tunnels whose ids share their first 16 bytes
+            writers = [mine, other]
         ops = []
         for _ in range(rng.choice([1, 2, 3, 4, 6, 9, 14])):
             k = rng.random()
@@ -517,6 +535,15 @@ def gen_tid_collide(rng, n):
     """distinct long ids that agree on their first 16 bytes and differ in ONE place (17th byte, middle, last byte, length):
     the known finding on a truncating tree; on a tree that hashes long ids any shared wire id is a violation"""
     out = [{"mode": "tid", "strs": [hx(ID_A), hx(ID_B)]}]
+    # non-ASCII ids (<= 16 runes, > 16 bytes) sharing their first 16 BYTES, also with the cut in the middle of a rune
+    for a, b in NONASCII_PAIRS:
+        out.append({"mode": "tid", "strs": [hx(a), hx(b)]})
+    for _ in range(max(4, n // 5)):
+        base = rand_nonascii_id(rng)
+        bb = base.encode()
+        other = bb[:-1] + bytes([bb[-1] ^ 1]) if bb[-1] < 0x80 else bb + b"x"
+        if pad16(bb) == pad16(other) and bb != other:
+            out.append({"mode": "tid", "strs": [bb.hex(), other.hex()]})
     for _ in range(n):
         base = "%s-tunnel-%d-%d" % (rng.choice(["tcp", "udp", "http"]), rng.randrange(10 ** 18, 10 ** 19), rng.choice([80, 8080, 65535]))
         b = bytearray(base.encode())
